@@ -10,7 +10,8 @@ package verifharness
 //
 // op language (one case per line, stateless):
 //   v <eth|bsc> <c|a> <headRn> <headRh> <delayParam> <contract> <hRn> <hRh> <src> <dst> <seq> <value>
-//     <ncons> (<rn> <rh> <root|X|Y>)* <raw proof json: base64|nil|-> <tag>
+//     <ncons> (<rn> <rh> <root[@innerRn-innerRh-timestamp]|X|Y>)* <raw proof json: base64|nil|-> <tag>
+//     (@…: the Height/Timestamp fields inside the stored ConsensusState when they differ from the key height / 1)
 //     | <derived: decoded proof record>  M <derived: trie.VerifyProof results>      -> ok | rej
 //   (everything after `|` is recomputed by the harness from the part before it on every run / replay;
 //    tag = class,reason,expect,breaking — generator class and the oracle's ground truth, ignored by the model)
@@ -390,6 +391,17 @@ type c08Cons struct {
 	rn, rh uint64
 	root   []byte
 	bad    string // "", "X" (garbage bytes), "Y" (consensus state of the other client type)
+	// the Height / Timestamp fields INSIDE the stored ConsensusState message; when `inner` is false they are the key
+	// height and 1 (what a header update writes). CreateClient / UpgradeClient store any value (ValidateBasic is empty).
+	inner         bool
+	irn, irh, its uint64
+}
+
+func (e *c08Cons) innerHeight() (uint64, uint64, uint64) {
+	if e.inner {
+		return e.irn, e.irh, e.its
+	}
+	return e.rn, e.rh, 1
 }
 
 type c08Case struct {
@@ -423,6 +435,8 @@ func (c *c08Case) core() string {
 		root := hx(e.root)
 		if e.bad != "" {
 			root = e.bad
+		} else if e.inner {
+			root += fmt.Sprintf("@%d-%d-%d", e.irn, e.irh, e.its)
 		}
 		fmt.Fprintf(&sb, " %d %d %s", e.rn, e.rh, root)
 	}
@@ -470,6 +484,14 @@ func c08ParseCore(t *testing.T, line string) *c08Case {
 		case "X", "Y":
 			e.bad = s
 		default:
+			if i := strings.Index(s, "@"); i >= 0 {
+				p := strings.Split(s[i+1:], "-")
+				if len(p) != 3 {
+					bad()
+				}
+				e.inner, e.irn, e.irh, e.its = true, u(p[0]), u(p[1]), u(p[2])
+				s = s[:i]
+			}
 			e.root = unhx(s)
 		}
 		c.cons = append(c.cons, e)
@@ -545,12 +567,14 @@ func c08Apply(t *testing.T, r *Rec, c *c08Case) (string, string) {
 		eh := clienttypes.NewHeight(e.rn, e.rh)
 		var bz []byte
 		var own, foreign exported.ConsensusState
+		irn, irh, its := e.innerHeight()
+		ih := clienttypes.NewHeight(irn, irh)
 		if c.client == "eth" {
-			own = &ethtypes.ConsensusState{Timestamp: 1, Height: eh, Root: e.root}
-			foreign = &bsctypes.ConsensusState{Timestamp: 1, Height: eh, Root: e.root}
+			own = &ethtypes.ConsensusState{Timestamp: its, Height: ih, Root: e.root}
+			foreign = &bsctypes.ConsensusState{Timestamp: its, Height: ih, Root: e.root}
 		} else {
-			own = &bsctypes.ConsensusState{Timestamp: 1, Height: eh, Root: e.root}
-			foreign = &ethtypes.ConsensusState{Timestamp: 1, Height: eh, Root: e.root}
+			own = &bsctypes.ConsensusState{Timestamp: its, Height: ih, Root: e.root}
+			foreign = &ethtypes.ConsensusState{Timestamp: its, Height: ih, Root: e.root}
 		}
 		switch e.bad {
 		case "X":
@@ -676,6 +700,14 @@ func c08Apply(t *testing.T, r *Rec, c *c08Case) (string, string) {
 	r.Count("class." + c.class + ":" + out + ":" + c.reason)
 	r.Count("expect." + c.expect)
 	r.Count("mut." + c.class)
+	if c.class == "cons-inner-height" {
+		if out != "ok" && c.reason == "not-confirmed" {
+			r.Count("inner.too-recent")
+		}
+		if out == "ok" && c.expect == "A" {
+			r.Count("inner.accepted")
+		}
+	}
 	if strings.HasPrefix(c.class, "forge-") {
 		r.Count("forge." + c.client + "." + c.kind)
 	}
@@ -847,6 +879,7 @@ var c08Classes = []string{
 	"cons-missing", "cons-corrupt-X", "cons-corrupt-Y", "cons-root-random", "cons-root-other-state", "cons-root-short",
 	"height-other-stored", "height-unstored",
 	"non-evm-long", "non-evm-lead0", "non-evm-raw", "json-variant", "json-null-fields",
+	"cons-inner-height", "cons-inner-height", "cons-inner-height", "cons-inner-height", "cons-inner-height", "cons-inner-height",
 	"delay-boundary", "delay-boundary", "delay-boundary", "height-above-head", "rev-head-lower", "rev-head-higher", "rev-head-higher-wrap", "rev-both", "big-heights", "delay-huge",
 }
 
@@ -1284,6 +1317,50 @@ func c08Gen(r *Rec, w *c08World) *c08Case {
 		case 2:
 			c.headRh = c.hRh + d + 1
 		}
+	case "cons-inner-height":
+		// the Height field inside the stored consensus state differs from the key (proof height) it is stored under,
+		// combined with the confirmation boundary of the PROOF height: the inner field must not matter
+		d := c.delay()
+		switch r.Rng.Intn(5) {
+		case 0, 1:
+			if d > 0 {
+				c.headRh = c.hRh + d - 1 // too recent by one block
+			}
+		case 2:
+			c.headRh = c.hRh + d // exactly confirmed
+		case 3:
+			c.headRh = c.hRh + d + 1
+		}
+		var e *c08Cons
+		for i := range c.cons {
+			if c.cons[i].rh == c.hRh {
+				e = &c.cons[i]
+			}
+		}
+		e.inner, e.irn, e.its = true, c.hRn, uint64(r.Rng.Intn(3))
+		variant := []string{"omitted", "smaller", "larger", "above-head", "confirmed-by-inner", "other-revision", "max"}[r.Rng.Intn(7)]
+		switch variant {
+		case "omitted":
+			e.irn, e.irh, e.its = 0, 0, 0
+		case "smaller":
+			if c.hRh > 0 {
+				e.irh = c.hRh - 1 - uint64(r.Rng.Int63n(int64(c08Min(c.hRh, 1<<40))))
+			}
+		case "larger":
+			e.irh = c.hRh + 1 + uint64(r.Rng.Intn(3))
+		case "above-head":
+			e.irh = c.headRh + 1 + uint64(r.Rng.Intn(1000)) // head - inner wraps around
+		case "confirmed-by-inner":
+			if c.headRh >= d {
+				e.irh = c.headRh - d // head - inner == delay exactly
+			}
+		case "other-revision":
+			e.irn, e.irh = c.hRn+1+uint64(r.Rng.Intn(2)), uint64(r.Rng.Intn(100))
+		case "max":
+			e.irh = ^uint64(0)
+		}
+		r.Count("inner." + variant)
+		r.Count("inner." + c.client + "." + c.kind)
 	case "height-above-head":
 		if c.hRh > 0 {
 			c.headRh = c.hRh - 1 - uint64(r.Rng.Intn(int(c08Min(c.hRh, 5))))
@@ -1349,6 +1426,15 @@ func c08Gen(r *Rec, w *c08World) *c08Case {
 		} else {
 			c.class = "base"
 		}
+	}
+	if r.Rng.Intn(6) == 0 { // noise: arbitrary inner fields on any stored state, whatever the class
+		for i := range c.cons {
+			if c.cons[i].bad == "" && !c.cons[i].inner && r.Rng.Intn(2) == 0 {
+				c.cons[i].inner = true
+				c.cons[i].irn, c.cons[i].irh, c.cons[i].its = uint64(r.Rng.Intn(2)), []uint64{0, c.headRh, c.headRh + 1, uint64(r.Rng.Int63()), ^uint64(0)}[r.Rng.Intn(5)], r.Rng.Uint64()>>uint(r.Rng.Intn(64))
+			}
+		}
+		r.Count("inner.noise")
 	}
 	// raw proof
 	switch c.class {
